@@ -35,13 +35,15 @@ class MotorLaw(HarnessBase):
 
     CONST = dict(Tmax=0.01953125, w0=1000.0, i0=0.25, imax=2.0)
 
-    def __init__(self, currents=True, units=('Nm', 'rad/s', 'A', 'A', 'rad/s'), twin=False, tag='', sym_consts=True):
+    def __init__(self, currents=True, units=('Nm', 'rad/s', 'A', 'A', 'rad/s'), twin=False, tag='', sym_consts=True,
+                 second_eval=False):
+        self.second_eval = second_eval
         self.sym_consts = sym_consts
         self.currents = currents
         self.units = tuple(units)
         self.twin = twin
         self.name = 'motor_law:%s:%s%s%s%s' % ('currents' if currents else 'nocurrents', '/'.join(self.units),
-                                               ':odd' if twin else '', '' if sym_consts else ':state', tag)
+                                               ':odd' if twin else '', ('' if sym_consts else ':state') + (':second_eval' if second_eval else ''), tag)
 
     def describe(self):
         return dict(currents=self.currents, units=dict(zip(('Tmax', 'w0', 'i0', 'imax', 'w'), self.units)), twin=self.twin)
@@ -62,6 +64,13 @@ class MotorLaw(HarnessBase):
 
     def _eval(self, env, gu, P, w, D):
         m = self._motor(env, gu, P)
+        if getattr(self, 'second_eval', False):
+            # the same motor object was first evaluated in another (concrete) state: the laws must be memoryless
+            m.pwm = -0.625
+            m.angular_speed = gu.AngularSpeed(-37.5, 'rad/s')
+            m.compute_torque()
+            if self.currents:
+                m.compute_electric_current()
         m.pwm = D
         m.angular_speed = _q(gu, 'AngularSpeed', w, self.units[4], 'rad/s')
         m.compute_torque()
@@ -142,7 +151,8 @@ TU, WU, IU = list(si.SI['Torque']), list(si.SI['AngularSpeed']), list(si.SI['Cur
 def specs(tier, seed):
     rnd = random.Random(seed)
     SIU = ('Nm', 'rad/s', 'A', 'A', 'rad/s')
-    S = [('law', True, SIU, False, True), ('law', False, SIU, False, True), ('law', True, SIU, True, True)]
+    S = [('law', True, SIU, False, True), ('law', False, SIU, False, True), ('law', True, SIU, True, True),
+         ('law', True, SIU, False, True, True), ('law', False, SIU, False, True, True)]
     # non-SI units: exactness is lost to the unit factors, so (linearity discipline) the constants are concrete
     # and the speed and the duty cycle stay symbolic
     n = 8 if tier == 'quick' else 40
@@ -163,8 +173,8 @@ def build(sp):
     if sp[0] == 'fp':
         from props import c08fp
         return c08fp.FPDeadZone(sp[1], sp[2], sp[3])
-    _, cur, units, twin, symc = sp
-    return MotorLaw(cur, units, twin, sym_consts=symc)
+    _, cur, units, twin, symc = sp[:5]
+    return MotorLaw(cur, units, twin, sym_consts=symc, second_eval=(len(sp) > 5 and sp[5]))
 
 
 JOB_CAP = {'quick': 900, 'thorough': 3000}
@@ -175,7 +185,7 @@ REQUIRED_TRIGGERS = {'quick': ('law.torque', 'law.current', 'law.dead_zone_zero_
 BOUNDS = {
     'quick': 'R mode: Tmax, w0, i0, imax (0<=i0<imax), speed (any sign, beyond no-load speed too) and duty cycle in [-1,1] '
              'all symbolic; SI units + 8 seeded unit assignments of the five quantities; odd symmetry by a twin evaluation '
-             'at (-D,-w). FP mode: the same methods on IEEE-754 double proxies, all finite doubles with magnitudes in '
+             'at (-D,-w); each law also evaluated on a motor object that was evaluated in another state before. FP mode: the same methods on IEEE-754 double proxies, all finite doubles with magnitudes in '
              '[1e-6,1e6], 60 s per query',
     'thorough': 'R mode: 40 seeded unit assignments + every torque and speed unit once; FP mode: 240 s per query',
 }
